@@ -34,11 +34,15 @@ ASSUMPTIONS = ["user functions deterministic", "a file system whose rename is at
 
 
 def registry():
-    return {}
+    from contracts import misc
+    return {**{c.short: c for c in misc.ALL}, **{c.name: c for c in misc.ALL}}
 
 
 def proof_items():
-    return []
+    from contracts import misc
+    from vf.driver import ProofItem
+    # the resume decision: which elements are recomputed (missing) and which are kept (existing)
+    return [ProofItem(misc.existing_and_missing, gen=misc.em_gen, call=misc.em_call)]
 
 
 def _run_child(job):
